@@ -2,7 +2,7 @@
 """Fail-closed translator: arithmetic and expression-level code of votelib -> Gallina.
 
 usage: py2v.py <repo> <outdir>
-Writes <outdir>/{Divisor,Quota,Pairwin,Rankscore,Threshold,Approval,Openlist,Core,CoreQsel,Signatures}.v, <outdir>/Signatures.json and <outdir>/STATUS.json
+Writes <outdir>/{Divisor,Quota,Pairwin,Rankscore,Threshold,Approval,Openlist,Core,CoreQsel,Signatures,Validate}.v, <outdir>/Signatures.json and <outdir>/STATUS.json
 (per unit: status ok | partial | failed, per definition ok | "unsupported: <why> at line N: <ast node>").
 
 1. Untyped function translator (component/divisor.py, component/quota.py).  Accepted subset (anything else raises
@@ -27,6 +27,9 @@ Writes <outdir>/{Divisor,Quota,Pairwin,Rankscore,Threshold,Approval,Openlist,Cor
    keys, constructor parameters and how __init__ stores each (Stored | StoredAs | Transformed line | NotStored), attribute writes after
    construction, mutable default arguments, evaluate / convert / validate parameter lists - see the comment above class SigTables.
    Nothing is rejected here: a form that is not read as a verbatim store is recorded as Transformed (the proofs then do not cover it).
+6. Validation code over dynamically typed objects (vote.py magnitude checker / validators, candidate.py nominators,
+   convert.InvalidVoteEliminator.convert -> Gen/Validate.v): whole method bodies, exceptions as results, isinstance read against the
+   class hierarchy of candidate.py - see the comment above VAL_HEADER / class VX; operations on objects read by Prelude/PyObj.v.
 The reading of the Python primitives is Prelude/PyNum.v and Prelude/PyList.v (trusted base).
 tools/gentie_selftest.py replays source edits (equivalent rewrites, semantic changes, untranslatable forms) against the
 translator and the Props/GenTie_*.v proofs.
